@@ -91,8 +91,8 @@ func buildStubOverlay(pkgDir, pkgName, tmp string, dirs []stubDirective) (map[st
 	fset := token.NewFileSet()
 	entries, _ := filepath.Glob(filepath.Join(pkgDir, "*.go"))
 	type parsed struct {
-		path string
-		file *ast.File
+		path  string
+		file  *ast.File
 		dirty bool
 	}
 	var files []*parsed
